@@ -306,12 +306,21 @@ func (w *gatedHyb) SetRuntime(k string, v interface{}, ttl time.Duration) error 
 
 var errInjected = errors.New("verif: injected transient storage fault")
 
-type faultCtl struct{ armed atomic.Bool }
+type faultCtl struct {
+	armed atomic.Bool
+	fired atomic.Int64 // injected faults consumed so far
+}
 
 func (f *faultCtl) arm(v bool) { f.armed.Store(v) }
 
 // hit is lock-free so that the injector does not serialise free-running callers.
-func (f *faultCtl) hit() bool { return f.armed.Load() && f.armed.CompareAndSwap(true, false) }
+func (f *faultCtl) hit() bool {
+	if f.armed.Load() && f.armed.CompareAndSwap(true, false) {
+		f.fired.Add(1)
+		return true
+	}
+	return false
+}
 
 type faultyPlain struct {
 	in storage.Storage
@@ -363,6 +372,9 @@ func (w *faultyCAS) SetNX(k string, v any, ttl time.Duration) (bool, error) {
 	return w.in.(storage.CASStore).SetNX(k, v, ttl)
 }
 func (w *faultyCAS) CompareAndSwap(k string, o, n any, ttl time.Duration) (bool, error) {
+	if w.f.hit() {
+		return false, errInjected
+	}
 	return w.in.(storage.CASStore).CompareAndSwap(k, o, n, ttl)
 }
 
@@ -1031,11 +1043,17 @@ func (e *env) runThread(th *thread, barrier func()) {
 					g.ev(fmt.Sprintf("dead.%d.%d.%s", th.tid, ownKind, own))
 					continue
 				}
+				fired := e.flt.fired.Load()
 				th.pass = true
 				err = alloc.VerifRenew()
 				th.pass = false
 				if err == nil {
 					g.ev(fmt.Sprintf("rnw.%d.%d.%s", th.tid, ownKind, own))
+				} else if e.flt.fired.Load() == fired {
+					// the tick of a live holder renewed nothing although no storage fault was injected:
+					// the claim will lapse while the node runs
+					g.ev(fmt.Sprintf("dead.%d.%d.%s", th.tid, ownKind, own))
+					continue
 				}
 			} else {
 				if ownKind == nodeKind {
